@@ -13,11 +13,16 @@
 //   ovis-extreme    end points on / beyond the first or last sweep position, single-direction flags
 //   ovis-inshape    end points strictly inside rectangles (also nested rectangles)
 //   ovis-multi      3-6 connectors, restricted flags, end points collinear / coincident, few shapes
+//   ovis-pins       separated rectangles carrying ShapeConnectionPins (on the border, at corners, inside by an
+//                   inside offset; flags given or derived from the side); pin vertices are connector-end-point
+//                   vertices of the graph (VertID = shape id, so they precede every connector end): emitted as
+//                   `pin` (input) + `oconn` with the position() / directions() the library reports
 #ifndef VERIF_C05_ORTHVIS_H
 #define VERIF_C05_ORTHVIS_H
 
 struct OvConn { double x, y; unsigned mask; };
-struct OvScene { std::vector<R4> rects; double buf; std::vector<OvConn> ends; };   // ends.size() even
+struct OvPin { int rect; double xo, yo, inside; unsigned mask; };       // proportional offsets on shape `rect`
+struct OvScene { std::vector<R4> rects; double buf; std::vector<OvConn> ends; std::vector<OvPin> pins; };   // ends.size() even
 
 static bool ovInteriorsDisjoint(const R4 &a, const R4 &b) {
     return a.x1 <= b.x0 || b.x1 <= a.x0 || a.y1 <= b.y0 || b.y1 <= a.y0;
@@ -81,6 +86,22 @@ static OvScene ovGen(vh::Rng &r, int cls, int maxRects) {
             const R4 &q = s.rects[0]; R4 big = {q.x0 - 2, q.y0 - 2, q.x1 + 3, q.y1 + 2}; s.rects.push_back(big);
         }
     }
+    else if (cls == 6) {
+        ovRects(r, s, std::min(n, 5), W + 4, 2); s.buf = r.coin(1, 3) ? 0.5 : 0.0; nconn = (int) r.range(1, 2);
+        const double offs[5] = {0.0, 0.25, 0.5, 0.75, 1.0};
+        for (size_t q = 0; q < s.rects.size(); ++q) {
+            int np = (int) r.range(0, 2);
+            for (int e = 0; e < np; ++e) {
+                OvPin pn; pn.rect = (int) q; pn.xo = offs[r.range(0, 4)]; pn.yo = offs[r.range(0, 4)];
+                if (r.coin(2, 3)) { if (r.coin()) pn.xo = r.coin() ? 0.0 : 1.0; else pn.yo = r.coin() ? 0.0 : 1.0; }   // on a side
+                pn.inside = r.coin(1, 3) ? 0.5 : 0.0;
+                pn.mask = r.coin(1, 3) ? 0u : ovMask(r);                  // 0 = ConnDirNone: derived from the side
+                bool dup = false;                                          // two pins of one shape at one point: skip
+                for (const OvPin &o : s.pins) if (o.rect == pn.rect && o.xo == pn.xo && o.yo == pn.yo) dup = true;
+                if (!dup) s.pins.push_back(pn);
+            }
+        }
+    }
     else { ovRects(r, s, std::min(n, 3), W, 2); nconn = (int) r.range(3, 6); }
     std::vector<double> sx, sy;                                       // side lines of the routing boxes
     for (const R4 &q : s.rects) { sx.push_back(q.x0 - s.buf); sx.push_back(q.x1 + s.buf); sy.push_back(q.y0 - s.buf); sy.push_back(q.y1 + s.buf); }
@@ -128,30 +149,77 @@ static OvScene ovGen(vh::Rng &r, int cls, int maxRects) {
     return s;
 }
 
-static const char *OVIS_CLASSES[] = {"ovis-touch", "ovis-overlap", "ovis-collinear", "ovis-extreme", "ovis-inshape", "ovis-multi"};
+static const char *OVIS_CLASSES[] = {"ovis-touch", "ovis-overlap", "ovis-collinear", "ovis-extreme", "ovis-inshape", "ovis-multi", "ovis-pins"};
 
+// raw dump of the orthogonal visibility graph (the ag* lines of dumpGraphRaw without `ags`)
+static void ovDump(Router *router) {
+    std::vector<VertInf *> vs;
+    std::map<VertInf *, int> id;
+    for (VertInf *v = router->vertices.connsBegin(); v != router->vertices.end(); v = v->lstNext) {
+        id[v] = (int) vs.size(); vs.push_back(v);
+    }
+    int n = (int) vs.size();
+    std::string t;
+    t += "agx"; for (int u = 0; u < n; ++u) ap(t, " %s", H(vs[u]->point.x).c_str()); t += "\n";
+    t += "agy"; for (int u = 0; u < n; ++u) ap(t, " %s", H(vs[u]->point.y).c_str()); t += "\n";
+    t += "agf"; for (int u = 0; u < n; ++u) ap(t, " %u", vs[u]->orthogVisPropFlags); t += "\n";
+    t += "agc"; for (int u = 0; u < n; ++u) ap(t, " %d", vs[u]->id.isConnPt() ? 1 : 0); t += "\n";
+    t += "aga";
+    for (int u = 0; u < n; ++u) {
+        int deg = 0;
+        for (EdgeInfList::const_iterator e = vs[u]->orthogVisList.begin(); e != vs[u]->orthogVisList.end(); ++e)
+            if (!(*e)->isDisabled()) ++deg;
+        ap(t, " %d", deg);
+        for (EdgeInfList::const_iterator e = vs[u]->orthogVisList.begin(); e != vs[u]->orthogVisList.end(); ++e) {
+            if ((*e)->isDisabled()) continue;
+            ap(t, " %d %s %d", id[(*e)->otherVert(vs[u])], H((*e)->getDist()).c_str(), (*e)->isDummyConnection() ? 1 : 0);
+        }
+    }
+    t += "\n";
+    fputs(t.c_str(), stdout);
+}
+
+// The graph is built by the router's own transaction (Router::regenerateStaticBuiltGraph ->
+// generateStaticOrthogonalVisGraph) on a router that holds the shapes (+ pins) and the connector end point
+// VERTICES but no connector, so that nothing is routed or nudged: these scenes (coincident / collinear / enclosed end
+// points) are outside what the route search and the nudging stage are specified for (a 10-end-point
+// ovis-multi scene ran into COLA_ASSERT(vs[it->second]->id != freeSegmentID) of nudgeOrthogonalRoutes),
+// and only the graph is judged here.  The end point vertices are made the way ConnRef::updateEndPoint
+// makes them: VertInf(router, VertID(connector id, 1|2, PROP_ConnPoint), point), visDirections = flags.
 static void runOvis(long k, const char *tag, const OvScene &s) {
     vh::beginCase(k, tag);
     printf("buf %s\n", H(s.buf).c_str());
     for (const R4 &r : s.rects) printf("rect %s %s %s %s\n", H(r.x0).c_str(), H(r.y0).c_str(), H(r.x1).c_str(), H(r.y1).c_str());
-    for (const OvConn &c : s.ends) printf("oconn %s %s %u\n", H(c.x).c_str(), H(c.y).c_str(), c.mask);
+    for (const OvPin &p : s.pins) printf("pin %d %s %s %s %u\n", p.rect, H(p.xo).c_str(), H(p.yo).c_str(), H(p.inside).c_str(), p.mask);
     fflush(stdout);
     Router *router = new Router(OrthogonalRouting);
     router->setRoutingParameter(segmentPenalty, 10);
     router->setRoutingParameter(shapeBufferDistance, s.buf);
     router->setRoutingParameter(idealNudgingDistance, 1.0);
-    for (const R4 &r : s.rects) { Rectangle poly(Point(r.x0, r.y0), Point(r.x1, r.y1)); new ShapeRef(router, poly); }
-    ConnRef *first = nullptr;
-    for (size_t e = 0; e + 1 < s.ends.size(); e += 2) {
-        ConnRef *c = new ConnRef(router, ConnEnd(Point(s.ends[e].x, s.ends[e].y), s.ends[e].mask),
-                                 ConnEnd(Point(s.ends[e + 1].x, s.ends[e + 1].y), s.ends[e + 1].mask));
-        c->setRoutingType(ConnType_Orthogonal);
-        if (!first) first = c;
+    std::vector<ShapeRef *> shapes;
+    for (const R4 &r : s.rects) { Rectangle poly(Point(r.x0, r.y0), Point(r.x1, r.y1)); shapes.push_back(new ShapeRef(router, poly)); }
+    // pins first: their vertices carry the shape's id and so precede all connector ends in the id order
+    for (const OvPin &p : s.pins) {
+        ShapeConnectionPin *pin = new ShapeConnectionPin(shapes[p.rect], 1 + (unsigned) (&p - &s.pins[0]), p.xo, p.yo, true, p.inside, (ConnDirFlags) p.mask);
+        Point pp = pin->position();
+        printf("oconn %s %s %u\n", H(pp.x).c_str(), H(pp.y).c_str(), (unsigned) pin->directions());
     }
+    for (const OvConn &c : s.ends) printf("oconn %s %s %u\n", H(c.x).c_str(), H(c.y).c_str(), c.mask);
+    fflush(stdout);
+    std::vector<VertInf *> ends;
+    for (size_t e = 0; e < s.ends.size(); ++e) {
+        VertInf *v = new VertInf(router, VertID(1000 + (unsigned) (e / 2), (unsigned short) (1 + e % 2), VertID::PROP_ConnPoint),
+                                 Point(s.ends[e].x, s.ends[e].y));
+        v->visDirections = (ConnDirFlags) s.ends[e].mask;
+        ends.push_back(v);
+    }
+    // ONE transaction: shapes and pins enter the router and Router::regenerateStaticBuiltGraph() builds the graph
+    // once, with the end point vertices present; there is no connector, so nothing is routed or nudged.
+    // (One build only: the outside rule's `visDirections |= …` is sticky on a vertex across rebuilds.)
     router->processTransaction();
-    long keep = g_caseIdx; g_caseIdx = 0;                 // always dump (thorough tier thins out only the routed scenes)
-    dumpGraphRaw(router, first);
-    g_caseIdx = keep;
+    ovDump(router);
+    router->destroyOrthogonalVisGraph();
+    for (VertInf *v : ends) { router->vertices.removeVertex(v); delete v; }
     delete router;
     vh::endCase();
 }
@@ -162,7 +230,7 @@ static long runOrthVisCases(const vh::Args &a, long k, bool thorough) {
     for (long c = 0; c < n; ++c, ++k) {
         if (!a.want(k)) continue;
         vh::Rng r = vh::caseRng(a.seed, k);
-        int cls = (int) r.range(0, 5);
+        int cls = (int) r.range(0, 6);
         OvScene s = ovGen(r, cls, thorough ? 12 : 7);
         runOvis(k, OVIS_CLASSES[cls], s);
     }
